@@ -114,8 +114,8 @@ def formulas_job(params):
                 D = {dim: m.tracer_diffusivity(dimensions=dim) for dim in (1, 2, 3)}
                 sig = {dim: m.tracer_conductivity(z_ion=z, dimensions=dim) for dim in (1, 3)}
                 com = tr.center_of_mass()
-                Dcom = {dim: m.tracer_diffusivity_center_of_mass(dimensions=dim) for dim in (1, 3)}
-                hav = m.haven_ratio(dimensions=3)
+                Dcom = {dim: m.tracer_diffusivity_center_of_mass(dimensions=dim) for dim in (1, 2, 3)}
+                havs = {dim: m.haven_ratio(dimensions=dim) for dim in (2, 3)}
             except Exception as e:
                 event(f'exception:{type(e).__name__}', detail=str(e)[:200])
                 return
@@ -162,14 +162,16 @@ def formulas_job(params):
                 e = cq * K['angstrom'] ** 2 / (2 * dim * T * dt)
                 prove_isolated('centre-of-mass diffusivity formula', got == e, given=lemma, timeout_ms=120000)
             # Haven ratio: the code's quotient must be tracer diffusivity over centre-of-mass diffusivity
-            qp = core.quotient_parts(hav)
-            prove('Haven ratio is computed as a quotient', qp is not None)
-            if qp is not None:
-                prove_isolated('Haven ratio numerator = tracer diffusivity', qp[0] == D[3], timeout_ms=120000)
-                prove_isolated('Haven ratio denominator = centre-of-mass diffusivity', qp[1] == Dcom[3], timeout_ms=120000)
-                if identical:
-                    prove_isolated('atoms that all move identically: numerator = denominator, i.e. a Haven ratio of one',
-                                   qp[0] == qp[1], given=lemma, timeout_ms=120000)
+            for dim, hav in havs.items():
+                qp = core.quotient_parts(hav)
+                prove('Haven ratio is computed as a quotient', qp is not None)
+                if qp is not None:
+                    prove_isolated('Haven ratio numerator = tracer diffusivity (same dimensions)', qp[0] == D[dim], timeout_ms=120000)
+                    prove_isolated('Haven ratio denominator = centre-of-mass diffusivity (same dimensions)', qp[1] == Dcom[dim],
+                                   timeout_ms=120000)
+                    if identical:
+                        prove_isolated('atoms that all move identically: numerator = denominator, i.e. a Haven ratio of one',
+                                       qp[0] == qp[1], given=lemma, timeout_ms=120000)
             sample(dict(T=T, A=A, lattice=lat, identical=identical))
 
     return symbolic_job(params, body, formulas_job_replay)
@@ -206,13 +208,15 @@ def formulas_job_replay(params, inputs):
     w = np.array([float(Species(s).atomic_mass) for s in SPECIES[:A]])
     cr = (np.cumsum(d, axis=0) * w[None, :, None]).sum(axis=1) / w.sum()
     cq = float(np.sum((cr[-1] @ M) ** 2))
-    e3 = cq * 1e-20 / (2 * 3 * T * dt)
-    if not rel(float(m.tracer_diffusivity_center_of_mass(dimensions=3)), e3):
-        return False, f'tracer_diffusivity_center_of_mass {float(m.tracer_diffusivity_center_of_mass(dimensions=3))} != {e3}; {desc}'
-    if e3 > 1e-300:
-        D3 = np.mean(np.sum(r[-1] ** 2, axis=-1)) * 1e-20 / (2 * 3 * T * dt)
-        if not rel(float(m.haven_ratio(dimensions=3)), D3 / e3):
-            return False, f'haven_ratio {float(m.haven_ratio(dimensions=3))} != {D3 / e3}; {desc}'
+    for dim in (1, 2, 3):
+        e3 = cq * 1e-20 / (2 * dim * T * dt)
+        got = float(m.tracer_diffusivity_center_of_mass(dimensions=dim))
+        if not rel(got, e3):
+            return False, f'tracer_diffusivity_center_of_mass(dimensions={dim}) {got} != {e3}; {desc}'
+        if e3 > 1e-300:
+            D3 = np.mean(np.sum(r[-1] ** 2, axis=-1)) * 1e-20 / (2 * dim * T * dt)
+            if not rel(float(m.haven_ratio(dimensions=dim)), D3 / e3):
+                return False, f'haven_ratio(dimensions={dim}) {float(m.haven_ratio(dimensions=dim))} != {D3 / e3}; {desc}'
     return True, 'ok'
 
 
